@@ -27,8 +27,9 @@ func TestMain(m *testing.M) { vh.Main(m, rec) }
 type Case struct {
 	Chunks   []int  `json:"chunks"`
 	PausesMs []int  `json:"pauses_ms"`
-	Framing  string `json:"framing"`      // chunked | cl
-	Config   string `json:"agent_config"` // default | sessions | shim | banner | all
+	Framing  string `json:"framing"`        // chunked | cl
+	Config   string `json:"agent_config"`   // default | sessions | shim | banner | all
+	HTML     bool   `json:"html,omitempty"` // the response is an HTML document (no <head> in it)
 }
 
 func genCase(t *rapid.T) Case {
@@ -50,6 +51,7 @@ func genCase(t *rapid.T) Case {
 	c.PausesMs = rapid.SliceOfN(rapid.SampledFrom([]int{0, 0, 0, 1, 5, 50}), 1, 4).Draw(t, "pauses")
 	c.Framing = rapid.SampledFrom([]string{"chunked", "chunked", "cl"}).Draw(t, "framing")
 	c.Config = rapid.SampledFrom([]string{"default", "default", "sessions", "shim", "banner", "all"}).Draw(t, "config")
+	c.HTML = rapid.IntRange(0, 2).Draw(t, "html") == 0
 	return c
 }
 
@@ -201,6 +203,9 @@ func runCase(t vh.TB, c *Case) vh.Outcome {
 	r := getRig(t, c.Config)
 	o := vh.Outcome{NonTrivial: len(c.Chunks) >= 2}
 	o.Classes = append(o.Classes, "agent-config-"+c.Config)
+	if c.HTML {
+		o.Classes = append(o.Classes, "html-response")
+	}
 	total := 0
 	maxc := 0
 	for _, s := range c.Chunks {
@@ -237,10 +242,14 @@ func runCase(t vh.TB, c *Case) vh.Outcome {
 	finished := make(chan struct{})
 	r.scripts[tok] = func(conn net.Conn) {
 		defer close(finished)
+		ctype := "application/octet-stream"
+		if c.HTML {
+			ctype = "text/html; charset=utf-8"
+		}
 		if c.Framing == "cl" {
-			fmt.Fprintf(conn, "HTTP/1.1 200 OK\r\nContent-Type: application/octet-stream\r\nContent-Length: %d\r\n\r\n", total)
+			fmt.Fprintf(conn, "HTTP/1.1 200 OK\r\nContent-Type: %s\r\nContent-Length: %d\r\n\r\n", ctype, total)
 		} else {
-			fmt.Fprintf(conn, "HTTP/1.1 200 OK\r\nContent-Type: application/octet-stream\r\nTransfer-Encoding: chunked\r\n\r\n")
+			fmt.Fprintf(conn, "HTTP/1.1 200 OK\r\nContent-Type: %s\r\nTransfer-Encoding: chunked\r\n\r\n", ctype)
 		}
 		var cum int64
 		for i, s := range c.Chunks {
